@@ -288,6 +288,7 @@ def make_call(fn, a, pick):
             o, _ = outcome(N.normalized_axes_tuple, axes, ndim=ndim)
         else:
             o, _ = outcome(N.normalized_axes_tuple, axes=axes, ndim=ndim)
+        x['np'] = numpy_axes(spell(a['axes'], Pick(0), arrays=False, npscalars=False), a['ndim']['v'])
         return o, x, desc
     if fn == 'index':
         ind = spell(a['ind'], pick)
@@ -427,6 +428,21 @@ def make_call(fn, a, pick):
     if fn == 'f1d':
         return call_f1d(a, pick, M)
     raise MachineryError('unknown function %r' % fn)
+
+
+def numpy_axes(axes, ndim):
+    """NumPy's own normalisation of an axis argument; [-1] if NumPy rejects it"""
+    try:
+        from numpy.core.numeric import normalize_axis_tuple
+    except ImportError:                                        # NumPy 2
+        from numpy.lib.array_utils import normalize_axis_tuple
+    try:
+        if not isinstance(axes, (int, list, tuple)) or isinstance(axes, bool) or \
+                (not isinstance(axes, int) and any(not isinstance(t, int) or isinstance(t, bool) for t in axes)):
+            return [-1]
+        return [int(t) for t in normalize_axis_tuple(axes, ndim)]
+    except Exception:
+        return [-1]
 
 
 def flat_sel(arr, idx):
@@ -626,6 +642,8 @@ def replay_cases(path, seed, variants, events, stats):
                 ok = literally_allowed(o, allow)
                 if ok and fn == 'index' and o['k'] == 'ok' and allow != [ANYTOK]:
                     ok = x['sout'] == x['sin'] or x['sin'] == [-1]
+                if ok and fn == 'axes' and o['k'] == 'ok' and allow != [ANYTOK] and x['np'] != [-1]:
+                    ok = [t['v'] for t in o['v']['v']] == x['np']
                 ev = {'id': 0, 'fn': fn, 'a': a, 'o': o, 'x': x or {'n': 0}}
                 if not ok:
                     fk = '%s|%s|%s' % (fn, case['cell'], o['v'] if o['k'] == 'err' else o['k'])
@@ -938,9 +956,13 @@ def consumers(paths, seed, stats, thorough):
                 out.append((dict(sig_of(fn, cell, 'consumer-raised'), consumer=name),
                             {'consumer': name, 'call': desc, 'raised': type(ex).__name__, 'normalised': repr(normal)}))
                 return
-            same = got == ref
-            if isinstance(same, np.ndarray):
-                same = bool(same.all())
+            try:
+                same = got == ref
+                if isinstance(same, np.ndarray):
+                    same = np.shape(got) == np.shape(ref) and bool(same.all())
+                same = bool(same) and type(got) is type(ref)
+            except Exception:
+                same = False                                   # objects that cannot even be compared are not equal
             if not same:
                 out.append((dict(sig_of(fn, cell, 'consumer-differs'), consumer=name),
                             {'consumer': name, 'call': desc, 'got': repr(got), 'normalised_gives': repr(ref)}))
@@ -1103,7 +1125,7 @@ def doc_examples():
         add('nob', {'nob': absin(nob), 'length': VI(length)}, o)
     for axes, ndim in [([0, -1, 2], 3), (-3, 3)]:
         o, _ = outcome(N.normalized_axes_tuple, axes, ndim=ndim)
-        add('axes', {'axes': absin(axes), 'ndim': VI(ndim)}, o)
+        add('axes', {'axes': absin(axes), 'ndim': VI(ndim)}, o, {'np': numpy_axes(axes, ndim)})
     return ev
 
 
@@ -1140,7 +1162,8 @@ def random_events(seed, n):
                 pool = list(range(-ndim, ndim)) if rnd.random() < 0.8 else list(range(-ndim - 2, ndim + 2))
                 axes = rseq([rint(v, v) for v in (rnd.sample(pool, k) if rnd.random() < 0.8 else [rnd.choice(pool) for _ in range(k)])])
             o, _ = outcome(N.normalized_axes_tuple, axes, ndim)
-            add('axes', {'axes': absin(axes), 'ndim': VI(ndim)}, o)
+            plain = int(axes) if isinstance(axes, (int, np.integer)) else [int(t) for t in axes]
+            add('axes', {'axes': absin(axes), 'ndim': VI(ndim)}, o, {'np': numpy_axes(plain, ndim)})
         elif which in (1, 2):                                  # index expressions on shapes up to 4 axes of size <= 6
             nd = rnd.randint(1, 4)
             shape = [rnd.randint(1, 6 if nd < 4 else 3) for _ in range(nd)]
@@ -1476,6 +1499,11 @@ def run_stage(ctx):
                 ctx.sample({'stage': STAGE, 'fn': c['fn'], 'args': c['a'], 'allowed': c['allow'], 'layerC': c['c']})
             if k > 4000:
                 break
+    ctx.extra['normalize_rule'] = (
+        'abstract case = (function, branch of the documentation that applies (Cell), leaf of the transcribed decision tree, '
+        'kind of outcome) resp. (history machine, concretisation of the object, last action); one evaluation = one real '
+        'call or one history executed on a real object and compared with the exported expectation, or one recorded event '
+        'accepted / rejected by Trace_Norm; every exported case is executed under 2 (quick) / 4 (thorough) spellings')
     ctx.assumptions += [
         'normalize: an exception class is demanded only where a Raises section names it (real_dtype / complex_dtype: '
         'ValueError); elsewhere "must be rejected" accepts any exception except NameError / UnboundLocalError, which '
